@@ -40,6 +40,8 @@ MEMBERS = [
     ("inner", "Struct('x'/Byte, 'y'/Int16ub)", True, False), ("arrst", "Array(2, Struct('z'/Byte))", True, False), ("until", "RepeatUntil(obj_ == 0, Byte)", True, False),
     ("nt", "NullTerminated(GreedyBytes)", True, False), ("nt_inc", "NullTerminated(GreedyBytes, include=True)", True, False), ("nt_nc", "NullTerminated(GreedyBytes, consume=False)", True, False),
     ("nt_inc_nc", "NullTerminated(GreedyBytes, include=True, consume=False)", True, False),
+    ("arr_until", "Array(2, RepeatUntil(obj_ == 0, Byte))", True, False), ("arr_named", "Array(2, 'sample'/Int16ub)", True, False), ("arr_arr", "Array(2, Array(2, Byte))", True, False),
+    ("pas32bom", "PascalString(Byte, 'utf32')", True, False),
     ("u16n", "Int16un", True, False), ("s32n", "Int32sn", True, False), ("fl16n", "FlagsEnum(Int16un, a=1, b=256, top=0x8000)", True, False), ("fl32n", "FlagsEnum(Int32un, a=1, z=0x01000000)", True, False),
     ("en16n", "Enum(Int16un, one=1, big=0x0102)", True, False), ("f32n", "Float32n", True, False), ("ns", "FixedSized(3, NullStripped(GreedyBytes))", True, False), ("varint", "VarInt", True, False), ("hex", "Hex(Int32ub)", True, False),
     ("rest", "GreedyBytes", True, True), ("cstr", "CString('ascii')", True, False), ("pstr", "PaddedString(3, 'ascii')", True, False), ("pas", "PascalString(Byte, 'utf8')", True, False),
@@ -47,12 +49,17 @@ MEMBERS = [
 ]
 
 
+# layouts KSY cannot express: the exporter must refuse them ("does not implement KSY export"), not describe something else
+REFUSED = ["PaddedString(8, 'utf16')", "PaddedString(6, 'utf_16_le')", "CString('utf_16_be')", "CString('utf32')", "PaddedString(8, 'utf_32_le')", "NullTerminated(GreedyBytes, term=b'\\r\\n')",
+           "Struct('s'/CString('utf_16_le'), 't'/Byte)", "Array(2, PaddedString(4, 'utf_16_le'))"]
+
+
 def instances(tier, seed):
     rnd = random.Random(seed * 53 + 29)
     out = []
     names = [m[0] for m in MEMBERS]
     big = {"s32b": 4, "s40l": 5, "f32": 4, "f64l": 8, "arr": 4, "hex": 4, "sharedarr": 4, "seq": 3, "u24": 3, "pad": 3, "ns": 3, "pstr": 3, "cpad": 3, "inner": 3, "cpre": 3, "cnt": 3, "bits16": 2,
-           "u16l": 2, "u16n": 2, "fl16n": 2, "en16n": 2, "s32n": 4, "fl32n": 4, "f32n": 4, "nt_inc": 2, "nt_nc": 2, "nt_inc_nc": 2, "raw2": 2, "cint": 2, "magic": 2, "arrst": 2, "fl16": 2, "ens": 2, "padding": 2}
+           "arr_until": 4, "arr_named": 4, "arr_arr": 4, "pas32bom": 9, "u16l": 2, "u16n": 2, "fl16n": 2, "en16n": 2, "s32n": 4, "fl32n": 4, "f32n": 4, "nt_inc": 2, "nt_nc": 2, "nt_inc_nc": 2, "raw2": 2, "cint": 2, "magic": 2, "arrst": 2, "fl16": 2, "ens": 2, "padding": 2}
 
     def need(ms):
         return max(8, 3 + sum(big.get(m, 1) for m in ms) + 1)
@@ -65,6 +72,8 @@ def instances(tier, seed):
     rnd.shuffle(pairs)
     for a, b in (pairs[:90] if tier == "quick" else pairs):
         out.append(dict(name="members %s,%s" % (a, b), params=dict(members=[a, b], n=need([a, b])), expect=["accept"]))
+    for r in REFUSED:
+        out.append(dict(name="refused %s" % r, params=dict(refused=r, members=[], n=0)))
     for a, b in (("shared", "sharedbits"), ("sharedbits", "shared"), ("sharedarr", "sharedbits"), ("sharedbits", "sharedarr")):
         if not any(o["name"] == "members %s,%s" % (a, b) for o in out):
             out.append(dict(name="members %s,%s" % (a, b), params=dict(members=[a, b], n=need([a, b])), expect=["accept"]))
@@ -139,6 +148,12 @@ def _cp(ch):
 
 
 def harness(ctx, C, p):
+    if "refused" in p:
+        d = mk(C, "Struct('n'/Byte, 'm'/%s, 't'/Byte)" % p["refused"])
+        r = api.outcome(d._compileseq, C.KsyGen())
+        ctx.check("a layout KSY cannot express is refused with a ConstructError, not exported as something else (got %s)" % ("a schema: %r" % (r.value,) if r.ok else type(r.exc).__name__),
+                  (not r.ok) and isinstance(r.exc, C.ConstructError))
+        return "refused"
     table = dict((m[0], m) for m in MEMBERS)
     ms = [table[x] for x in p["members"]]
     plain = "Struct('n'/Byte, %s, 't'/Byte)" % ", ".join("%r/%s" % (m[0], m[1]) for m in ms)
